@@ -4,11 +4,14 @@ import (
 	"encoding/json"
 	"fmt"
 	"math/big"
+	"sort"
 	"strings"
+	"time"
 
 	"github.com/bitcoin-sv/block-headers-service/domains"
 	"github.com/bitcoin-sv/block-headers-service/internal/chaincfg"
 	"github.com/bitcoin-sv/block-headers-service/internal/chaincfg/chainhash"
+	"github.com/bitcoin-sv/block-headers-service/repository"
 	"github.com/bitcoin-sv/block-headers-service/service"
 )
 
@@ -28,6 +31,7 @@ var stName = map[string]string{"L": "LONGEST_CHAIN", "S": "STALE", "O": "ORPHAN"
 // Replayer executes behaviours against one Stack.
 type Replayer struct {
 	S       *Stack
+	Fault   *FaultRepo
 	Params  *chaincfg.Params
 	Genesis [32]byte
 	GenWork *big.Int
@@ -37,6 +41,7 @@ type Replayer struct {
 	Steps   int
 	Queries int
 	Stats   map[string]int
+	Notify  bool // C11: register recording channels and compare the events
 	cur     int
 	devSeen string
 }
@@ -44,11 +49,13 @@ type Replayer struct {
 // NewReplayer opens the stack on dbPath.
 func NewReplayer(dbPath string, seed int64) (*Replayer, error) {
 	s := &Stack{Cfg: NewConfig(dbPath), Path: dbPath}
+	fr := &FaultRepo{}
+	s.Decorate = func(h repository.Headers) repository.Headers { fr.Headers = h; return fr }
 	if err := s.Open(); err != nil {
 		return nil, err
 	}
 	p := s.Cfg.P2P.GetNetParams()
-	r := &Replayer{S: s, Params: p, Seed: seed, Level: 1}
+	r := &Replayer{S: s, Fault: fr, Params: p, Seed: seed, Level: 1}
 	bh := p.GenesisBlock.Header
 	raw := RawHeader{Version: bh.Version, Prev: bh.PrevBlock, Merkle: bh.MerkleRoot, Time: uint32(bh.Timestamp.Unix()), Bits: bh.Bits, Nonce: bh.Nonce}
 	r.Genesis = raw.Hash()
@@ -85,7 +92,11 @@ func addResult(h *domains.BlockHeader, err error) string {
 func SafeAdd(ch service.Chains, src domains.BlockHeaderSource) (h *domains.BlockHeader, err error, crashed string) {
 	defer func() {
 		if x := recover(); x != nil {
-			crashed = fmt.Sprint(x)
+			if killed(x) {
+				crashed = "killed"
+			} else {
+				crashed = fmt.Sprint(x)
+			}
 		}
 	}()
 	h, err = ch.Add(src)
@@ -96,8 +107,35 @@ func SafeAdd(ch service.Chains, src domains.BlockHeaderSource) (h *domains.Block
 func (r *Replayer) Run(idx int, b *Behaviour) error {
 	r.cur = idx
 	r.devSeen = ""
+	var rig *NotifyRig
+	var expEv []evRec
+	if r.Notify {
+		r.S.Close()
+		if err := r.S.Open(); err != nil {
+			return err
+		}
+	}
 	if err := r.S.Reset(); err != nil {
 		return err
+	}
+	if r.Notify {
+		rig = r.attachNotify(idx)
+	}
+	finishRig := func(k int) {
+		if rig == nil {
+			return
+		}
+		rig.waitCounts(len(expEv), 2*time.Second)
+		time.Sleep(2 * time.Millisecond)
+		close(rig.release)
+		for _, name := range rig.order {
+			got := rig.recs[name].snapshot()
+			if d := diffEvents(expEv, got); d != "" {
+				r.miss(k, "events", fmt.Sprintf("channel %s: %d events %v", name, len(expEv), expEv), d)
+			}
+		}
+		r.Stats["events-expected"] += len(expEv)
+		rig, expEv = nil, nil
 	}
 	c := Concretise(b, r.Genesis, r.Seed+int64(idx))
 	var forb []*chainhash.Hash
@@ -129,10 +167,18 @@ func (r *Replayer) Run(idx int, b *Behaviour) error {
 		}
 		switch st.Op {
 		case "add", "resubmit":
+			r.Fault.Arm(st.Fault)
 			h, err, crashed := SafeAdd(r.S.Svc.Chains, c.Source(st.ID))
+			r.Fault.Arm("")
 			got := addResult(h, err)
-			if crashed != "" {
+			if crashed == "killed" {
+				got = "killed"
+				crashed = ""
+			} else if crashed != "" {
 				got = "crash:" + crashed
+			}
+			if st.Fault != "" && st.Fault != "none" {
+				r.Stats["fault:"+strings.SplitN(st.Fault, "@", 2)[0]]++
 			}
 			if got != st.Res {
 				m := Mismatch{Beh: idx, Step: k, Kind: "result", Exp: st.Res, Got: got, Dev: r.devSeen}
@@ -149,15 +195,28 @@ func (r *Replayer) Run(idx int, b *Behaviour) error {
 				r.checkReturned(k, c, st.ID, h)
 			}
 		case "restart":
+			finishRig(k)
 			r.S.Close()
 			if err := r.S.Open(); err != nil {
 				r.miss(k, "restart", "reopen ok", err.Error())
 				return err
 			}
+			if r.Notify {
+				rig = r.attachNotify(idx + k)
+			}
 		default:
 			return fmt.Errorf("unknown op %q", st.Op)
 		}
+		if rig != nil && (st.Op == "add" || st.Op == "resubmit") {
+			if lab, ok := stName[st.Res]; ok {
+				raw := c.Hdr[st.ID]
+				expEv = append(expEv, evRec{Op: "ADD", Height: int32(st.Ht[st.ID]), Hash: c.HashOf(st.ID), Ver: raw.Version, Merkle: HexRev(raw.Merkle),
+					Time: int64(raw.Time), Nonce: raw.Nonce, State: lab, Work: r.realCum(st.Cum[st.ID], st.Res == "O"), Prev: HexRev(raw.Prev)})
+			}
+			rig.waitCounts(len(expEv), 2*time.Second)
+		}
 		if bad := r.checkTable(k, c, &st); bad {
+			finishRig(k)
 			return nil // later steps would only repeat the divergence
 		}
 		for _, q := range st.Q {
@@ -165,6 +224,7 @@ func (r *Replayer) Run(idx int, b *Behaviour) error {
 			r.runQuery(k, c, &q)
 		}
 	}
+	finishRig(len(b.Hist))
 	if len(b.Q) > 0 {
 		before, _ := r.S.Digest()
 		for i := range b.Q {
@@ -363,4 +423,24 @@ func (r *Replayer) checkServiceViews(k int, c *Concrete, st *Step) {
 			}
 		}
 	}
+}
+
+
+// diffEvents compares two event multisets; "" when equal.
+func diffEvents(exp, got []evRec) string {
+	key := func(e evRec) string { return fmt.Sprintf("%+v", e) }
+	a := make([]string, len(exp))
+	for i, e := range exp {
+		a[i] = key(e)
+	}
+	b := make([]string, len(got))
+	for i, e := range got {
+		b[i] = key(e)
+	}
+	sort.Strings(a)
+	sort.Strings(b)
+	if strings.Join(a, "|") == strings.Join(b, "|") {
+		return ""
+	}
+	return fmt.Sprintf("%d events %v", len(got), got)
 }
